@@ -440,6 +440,12 @@ def mirror_compare(s1, s2, known_mirror=False):
     if sig1 != sig2 or len(t1) != len(t2) or not t1:
         return None, None
     f1 = [flip_tok(t) for t in t1]
+    # names the vocabulary does not know but the pair itself shows to be x/y twins
+    # (`xmirror`/`ymirror` at the same position of two identically shaped statements)
+    for i, (a, b) in enumerate(zip(t1, t2)):
+        if f1[i] == a and a[0] == b[0] and a[0] in ('id', 'attr', 'kw') and isinstance(a[1], str) and isinstance(b[1], str) \
+                and len(a[1]) > 1 and a[1][1:] == b[1][1:] and {a[1][0], b[1][0]} == {'x', 'y'}:
+            f1[i] = b
     n_axis = sum(1 for a, b in zip(t1, f1) if a != b)
     if n_axis == 0:
         return None, None
